@@ -103,4 +103,8 @@ CHECKS["C07"] = {
   "note": "what svds/eigsh/eigh return is trusted by contract (unit norm, zero line => zero entry, ascending eigenvalues), validated against the real routines on each replay; sample/feature duality and PCov-CUR(mixing=1)==CUR only as equality of arguments; PCov-CUR feature direction outside",
   "technique": TECH,
 }
-NOT_APPLICABLE = {}
+NOT_APPLICABLE = {
+ "C13": "not decided in this round: the reconstruction measures run their default estimator Ridge2FoldCV (fold SVDs of centred, scaled data whose singular frames are outside the verified-frame library) and, for GRD, OrthogonalRegression on top of it; the symbolic engine reaches both components separately (C10, C18, C11) but a harness for the composed measures with a closed-form estimator was not built and validated in the time available. One defect seen by replay in the design round (GRD with X wider than Y raises a broadcast ValueError) is therefore neither claimed nor listed as found by a check.",
+ "C17": "solver-based checking cannot decide the core of this property: score_samples is a log-sum-exp of Gaussians and the bandwidths come from data-dependent while-loops over exp / effective dimension (eigenvalues + log) / non-integer powers; z3 and cvc5 have no transcendental reasoning and uninterpreted exp/log leave the mixture formula, positive definiteness after shrinkage and translation invariance of the log-density undecided. The decidable fragment (nearest-grid assignment, weight sums, free-space covariance algebra) was not built in the time available, so nothing is claimed.",
+ "C19": "the property is about scipy.spatial.ConvexHull (qhull) output; encoding it needs a stub of the convex hull by its definition (facets = d-subsets with all points on one side, general position assumed) plus interp1d / LinearNDInterpolator stubs; this stub was designed (DESIGN.md history) but not built and validated against qhull in the time available, so the property is not claimed rather than checked with another technique.",
+}
